@@ -116,7 +116,30 @@ def irset(r, toggle: bool = None, special: bool = None, density: float = None, l
         keys.append("off")
     if special:
         keys += ["FUN_d0", "FUN_d1"]
-    r.shuffle(keys)
+    # key order in the file: shuffled, as written (mode by mode, temperatures ascending), or with an extreme temperature
+    # stored exactly once and first/last among the temperature keys (range scans depend on order and multiplicity)
+    style = r.choice(["shuffled", "shuffled", "shuffled", "as_written", "min_once_first", "max_once_first", "min_once_last", "single_temp"])
+    if style == "shuffled":
+        r.shuffle(keys)
+    elif style != "as_written":
+        tkeys = [k for k in keys if k[:2] in ("ar", "ah") and k[2:4].isdigit()]
+        if tkeys:
+            temps = sorted({int(k[2:4]) for k in tkeys})
+            ext = temps[-1] if style == "max_once_first" else temps[0]
+            if style == "single_temp":
+                keep_t = r.choice(temps)
+                drop = [k for k in tkeys if int(k[2:4]) != keep_t]
+                keys = [k for k in keys if k not in drop and not (k.startswith("on_") and k[3:] in drop)]
+                ext = keep_t
+                tkeys = [k for k in keys if k[:2] in ("ar", "ah") and k[2:4].isdigit()]
+            ext_keys = [k for k in tkeys if int(k[2:4]) == ext]
+            only = r.choice(ext_keys)
+            gone = [k for k in ext_keys if k != only]
+            keys = [k for k in keys if k not in gone and not (k.startswith("on_") and k[3:] in gone)]
+            keys.remove(only)
+            rest_t = [k for k in keys if k[:2] in ("ar", "ah") and k[2:4].isdigit()]
+            others = [k for k in keys if k not in rest_t]
+            keys = others + ([only] + rest_t if style.endswith("first") or style == "single_temp" else rest_t + [only])
     waves = []
     for i, k in enumerate(keys):
         x = r.random()
